@@ -89,6 +89,7 @@ def main():
         asms = sorted(glob.glob(os.path.join(repo, "src/core/arch/x86_64", "*.s")))
         adapter = os.path.join(VERIF, "adapter", "adapter.cpp")
         jobs = []
+        owner = []
         links = []
         for fl in need:
             fdir = os.path.join(out, fl)
@@ -105,22 +106,34 @@ def main():
                 for s in srcs + [adapter]:
                     o = os.path.join(odir, os.path.relpath(s, "/").replace("/", "_") + ".o")
                     jobs.append([cxx, "-c"] + flags + [s, "-o", o])
+                    owner.append((fl, rep, s))
                     objs.append(o)
                 for s in asms:
                     o = os.path.join(odir, os.path.basename(s) + ".o")
                     jobs.append(["as", s, "-o", o])
+                    owner.append((fl, rep, s))
                     objs.append(o)
                 so = os.path.join(fdir, "libjp_%s.so" % rep)
-                links.append([cxx, "-shared", "-o", so] + objs + FLAVOURS[fl][:1] + ["-Wl,-z,now", "-Wl,-z,relro", "-Wl,-Bsymbolic", "-Wl,-z,noexecstack"])
+                links.append(((fl, rep), [cxx, "-shared", "-o", so] + objs + FLAVOURS[fl][:1] + ["-Wl,-z,now", "-Wl,-z,relro", "-Wl,-Bsymbolic", "-Wl,-z,noexecstack"]))
+        # A configuration other than the default one that no longer builds is not a reason to stop: the replica is left out and
+        # failed_<rep>.txt says which source failed and why (the engine reports it: a violation for the properties that quantify
+        # over configurations when a library source is at fault, a harness problem when it is the adapter).
+        failed = {}
         with cf.ThreadPoolExecutor(max_workers=int(os.environ.get("JV_JOBS", "16"))) as ex:
-            for rc, cmd, txt in ex.map(run, jobs):
+            for (rc, cmd, txt), own in zip(ex.map(run, jobs), owner):
+                if rc != 0 and (own[0], own[1]) not in failed:
+                    failed[(own[0], own[1])] = (own[2], txt)
+                    sys.stderr.write("BUILD FAILED (%s/%s): %s\n%s\n" % (own[0], own[1], cmd, txt))
+            todo = [(k, c) for k, c in links if k not in failed]
+            for (rc, cmd, txt), (k, c) in zip(ex.map(run, [c for k, c in todo]), todo):
                 if rc != 0:
-                    sys.stderr.write("BUILD FAILED: %s\n%s\n" % (cmd, txt))
-                    sys.exit(3)
-            for rc, cmd, txt in ex.map(run, links):
-                if rc != 0:
-                    sys.stderr.write("LINK FAILED: %s\n%s\n" % (cmd, txt))
-                    sys.exit(3)
+                    failed[k] = ("(link)", txt)
+                    sys.stderr.write("LINK FAILED (%s/%s): %s\n%s\n" % (k[0], k[1], cmd, txt))
+        for (fl, rep), (src, txt) in failed.items():
+            if rep == "A":
+                sys.exit(3)     # the shipped configuration itself does not build
+            with open(os.path.join(out, fl, "failed_%s.txt" % rep), "w") as fh:
+                fh.write(src + "\n" + "\n".join(txt.splitlines()[:25]) + "\n")
         for fl in need:
             fdir = os.path.join(out, fl)
             shutil.copyfile(os.path.join(fdir, "libjp_A.so"), os.path.join(fdir, "libjp_A2.so"))
